@@ -134,11 +134,15 @@ def build_cpp(name, sources, flags=(), asan=False, ndebug=True, libs=None, compi
     with Lock('cpp-' + name):
         if os.path.exists(out):
             return out, None
-        # drop stale binaries of the same harness
+        # drop stale binaries of the same harness — but only old ones: another run (e.g. against a
+        # VERIF_REPO copy, or one that started before /repo was edited) may still be using them
+        now = time.time()
         for f in os.listdir(BUILD):
-            if f.startswith(name + '-') and not f.endswith('.lock'):
+            fp = os.path.join(BUILD, f)
+            if f.startswith(name + '-') and not f.endswith('.lock') and os.path.isfile(fp):
                 try:
-                    os.remove(os.path.join(BUILD, f))
+                    if now - os.path.getmtime(fp) > 6 * 3600:
+                        os.remove(fp)
                 except OSError:
                     pass
         tmp = out + '.tmp%d' % os.getpid()
